@@ -1,4 +1,5 @@
 import JugModel.Lemmas.Loop
+import JugModel.Lemmas.LoopConf
 /-!
 # The scheduling loop of one worker, for task lists of any length
 
@@ -10,8 +11,9 @@ flags, wait-cycle counts and answer streams and comparing the event lists (harne
 checks of C01 and C03).
 
 `worker_scans_all` (WorkerBridge) establishes the scan obligation of `C01.exec_complete` on every *extracted* path of the
-real loop over lists of one and two tasks. The theorem here establishes it for every run of the loop program - any list
-length, any dependency structure, any flags, any number >= 1 of wait cycles, any answers of the environment.
+real loop over lists of one and two tasks. The theorems here establish it - and the per-task protocol
+of `worker_conforms` - for every run of the loop program: any list length, any dependency structure, any flags, any number of
+wait cycles (>= 1 for the scan obligation), any answers of the environment.
 -/
 namespace Jug.LoopBridge
 open Jug.Exec Jug.Loop
@@ -21,6 +23,15 @@ open Jug.Exec Jug.Loop
 theorem loop_scans_all (fl : LFlags) (deps : List (List Task)) (nr : Nat) (hnr : 1 ≤ nr) (answers : List Nat) :
     lscanOK ⟨⟨fl.keepGoing, fl.keepFailed⟩, deps, loopTrace fl deps nr answers⟩ = true :=
   Jug.Loop.loop_scans_all fl deps nr hnr answers
+
+/-- **the loop keeps the per-task protocol on every list**: every event of a run is a legal step of the worker-local transition function
+    `lstep` (lock before run, re-check under the lock, `dump` after a normal return and before `unlock`, `unlock` on every exit path
+    unless failed and kept, `fail()` only with --keep-failed), a task function is entered only after each of its dependencies was observed
+    complete, and the loop ends holding nothing with a truthful `failures` value or the right exception. This is `worker_conforms`
+    (the kernel check of the extracted paths over lists of one and two tasks) for task lists of any length. -/
+theorem loop_conforms (fl : LFlags) (deps : List (List Task)) (nr : Nat) (answers : List Nat) :
+    lconforms ⟨⟨fl.keepGoing, fl.keepFailed⟩, deps, loopTrace fl deps nr answers⟩ = true :=
+  Jug.Loop.loop_conforms fl deps nr answers
 
 /-- the loop program's fuel is sufficient: giving `outer` more passes than there are tasks changes nothing -/
 theorem loop_fuel_sufficient (fl : LFlags) (dp : Task → List Task) (nr f : Nat) (prev : Option Task) (e : Env) (failures : Bool)
